@@ -12,6 +12,7 @@ structure DState where
   mem : Mem := MemStore.init 1
   red : RedisStore.RState := {}
   clock : Int := 0
+  down : Bool := false   -- the Redis behind the store has been switched off (`st.fail on=1`)
   deriving Inhabited
 
 /-- uniform view of the two store models -/
@@ -28,7 +29,8 @@ def deleteLeecher (st : DState) (ih : Bytes) (p : Peer) : DState × Bool :=
   if st.redis then let r := RedisStore.deleteLeecher st.red ih p; ({ st with red := r.1 }, r.2)
   else let r := st.mem.deleteLeecher ih p; ({ st with mem := r.1 }, r.2)
 def scrape (st : DState) (ih : Bytes) (f : Fam) : Nat × Nat :=
-  if st.redis then RedisStore.scrape st.red ih f else st.mem.scrape ih f
+  if st.down then (0, 0)   -- `ScrapeSwarm` logs the error and reports nothing
+  else if st.redis then RedisStore.scrape st.red ih f else st.mem.scrape ih f
 def swarm? (st : DState) (ih : Bytes) (f : Fam) : Option Swarm :=
   if st.redis then RedisStore.swarm? st.red ih f else st.mem.swarm? ih f
 def gc (st : DState) (cutoff : Int) : DState :=
@@ -65,14 +67,45 @@ def dumpRedis (r : RedisStore.RState) : String :=
   "hashes=[" ++ " ".intercalate (hs.map fun (k, v) => k ++ "=" ++ v) ++ "] idx4=[" ++ ix r.idx4 ++ "] idx6=[" ++ ix r.idx6 ++
   s!"] counters=[{r.c.ih4},{r.c.s4},{r.c.l4},{r.c.ih6},{r.c.s6},{r.c.l6}]"
 
+
+/-! ### `st.redis_sched`: a schedule of Redis round trips (the concurrent semantics of `RedisConc`) -/
+
+def parseAOp (ih : Bytes) (now : Int) (s : String) : Option RedisConc.AOp :=
+  match s.splitOn ":" with
+  | [k, pkhex] =>
+    match hexArg pkhex with
+    | some pk =>
+      let p := peerOfKey pk
+      match k with
+      | "ps" => some (.putSeeder ih p now)
+      | "pl" => some (.putLeecher ih p now)
+      | "gr" => some (.graduate ih p now)
+      | "ds" => some (.deleteSeeder ih p)
+      | "dl" => some (.deleteLeecher ih p)
+      | _ => none
+    | none => none
+  | _ => none
+
+/-- `-` = the empty program; operations separated by `;`, threads by `|` -/
+def parseProgs (ih : Bytes) (now : Int) (s : String) : Option (List (List RedisConc.AOp)) :=
+  (s.splitOn "|").mapM fun t => if t == "-" || t == "" then some [] else (t.splitOn ";").mapM (parseAOp ih now)
+
+def parseSched (s : String) : Option (List Nat) :=
+  if s == "-" || s == "" then some [] else (s.splitOn ",").mapM (·.toNat?)
+
+/-- after the schedule every thread is run to completion, thread 0 first -/
+def drain (c : RedisConc.Config) (n fuel : Nat) : RedisConc.Config :=
+  (List.range n).foldl (fun c t => (List.range fuel).foldl (fun c _ => RedisConc.stepThread c t) c) c
+
 def handle (st : DState) (l : Line) : Option (DState × Except String String) :=
   let ret (s : DState) (r : Except String String) := some (s, r)
   match l.op with
   | "st.reset" =>
     match l.nat "n" with
-    | .ok n => ret { st with redis := l.get "kind" == "redis", mem := MemStore.init n, red := {} } (.ok "ok\ttrivial")
+    | .ok n => ret { st with redis := l.get "kind" == "redis", mem := MemStore.init n, red := {}, down := false } (.ok "ok\ttrivial")
     | .error e => ret st (.error e)
-  | "st.fail" => ret st (.ok (if st.redis then "ok\ttrivial" else "n/a\ttrivial"))   -- the Redis behind the store is switched off / on: no state change
+  | "st.fail" =>
+    if st.redis then ret { st with down := l.get "on" == "1" } (.ok "ok\ttrivial") else ret st (.ok "n/a\ttrivial")
   | "st.clock" =>
     match l.int "t" with
     | .ok t => ret { st with clock := t } (.ok "ok\ttrivial")
@@ -141,6 +174,22 @@ def handle (st : DState) (l : Line) : Option (DState × Except String String) :=
       let st3 := putSeeder st2 ih p
       ret st3 (.ok (s!"reannounced_during_pass=1 kept={(scrape st3 ih p.fam).1}\tgcrace"))
     | _, _ => ret st (.error "bad args")
+  | "st.redis_sched" =>
+    if !st.redis then ret st (.ok "n/a\ttrivial") else
+    match l.bytes "ih" with
+    | .error e => ret st (.error e)
+    | .ok ih =>
+      match parseProgs ih st.clock (l.get "progs"), parseSched (l.get "sched") with
+      | some progs, some sched =>
+        let c0 := RedisConc.Init st.red (fun t => progs.getD t [])
+        let mid := RedisConc.run c0 sched
+        let inflight := ((List.range progs.length).filter fun t => !(mid.thr t).pending.isEmpty).length
+        let fuel := 4 * ((progs.map List.length).sum + 1)
+        let fin := drain mid progs.length fuel
+        let lg := ",".intercalate (fin.log.map fun (t, _, r) => s!"{t}:{if r then "ok" else "notexist"}")
+        ret { st with red := fin.s }
+          (.ok (s!"mid={dumpRedis mid.s} log=[{lg}]\t" ++ (if inflight > 0 then s!"inflight{inflight}" else "quiescent-mid")))
+      | _, _ => ret st (.error "bad args")
   | "st.dump" => ret st (.ok ((if st.redis then dumpRedis st.red else dump st.mem) ++ "\tdump"))
   | "st.totals" =>
     let (a, b, c) := totals st
